@@ -25,6 +25,7 @@ class QueryBuilder:
         self.sel_exprs = []
         self.query = None
         self.domlists = []
+        self.froms = {}
 
     # -- variables -------------------------------------------------------
     def var(self, i):
@@ -35,16 +36,36 @@ class QueryBuilder:
             self.domlists.append(dom)
             decl = v.get("decl", "let")
             cls = world.CLASSES[v["cls"]]
-            if decl == "let":
+            explicit = self.q.get("build") == "explicit"
+            if decl == "let" or (explicit and decl == "term"):
                 self.vars[key] = let(type_=cls, domain=dom)
             elif decl == "from":
                 with symbolic_mode():
-                    self.vars[key] = cls(From(dom))
+                    self.vars[key] = cls(self.from_for(v, dom))
+            elif decl == "term":       # predicate form: T(From(d), positional..., field=value...)
+                args, kwargs = [], {}
+                for fc in v.get("fields", []):
+                    val = self.expr(fc["e"])
+                    if fc["style"] == "pos":
+                        args.append(val)
+                    else:
+                        kwargs[fc["f"]] = val
+                with symbolic_mode():
+                    self.vars[key] = cls(self.from_for(v, dom), *args, **kwargs)
             elif decl == "iter":      # one-shot iterator supplied by the case runner
                 self.vars[key] = let(type_=cls, domain=v["_iterator"])
             else:
                 raise ValueError(decl)
         return self.vars[key]
+
+    def from_for(self, v, dom):
+        """From(...) instance for a declaration; declarations with the same `fromkey` share one instance."""
+        k = v.get("fromkey")
+        if k is None:
+            return From(dom)
+        if k not in self.froms:
+            self.froms[k] = From(dom)
+        return self.froms[k]
 
     # -- value expressions ------------------------------------------------
     def expr(self, e):
@@ -117,11 +138,16 @@ class QueryBuilder:
 
     def conds(self, c):
         """Top-level conditions passed to entity/set_of: `conj` lists several."""
+        extra = []
+        if self.q.get("build") == "explicit":      # explicit twin of predicate-form terms: one equality per field
+            for i, v in enumerate(self.q["vars"]):
+                for fc in v.get("fields", []):
+                    extra.append(getattr(self.var(i + 1), fc["f"]) == self.expr(fc["e"]))
         if c["k"] == "true":
-            return []
+            return extra
         if c["k"] == "conj":
-            return [self.cond(x) for x in c["cs"]]
-        return [self.cond(c)]
+            return extra + [self.cond(x) for x in c["cs"]]
+        return extra + [self.cond(c)]
 
     # -- whole query -------------------------------------------------------
     def build(self):
